@@ -68,7 +68,7 @@ Proof. exact round_trip_refuted. Qed.
     GC), for every message size, threshold, header size and clock, reading the
     files oldest first yields every logged message exactly once, in order. *)
 Theorem c16_rotation_lossless : forall h m ops,
-  0 <= h -> Forall (good_op 0) ops -> no_gc ops = true ->
+  0 <= h -> run_ok h (init_state [] m) ops -> no_gc ops = true ->
   readback (rrun h (init_state [] m) ops) = logged ops.
 Proof. exact rotation_lossless. Qed.
 
@@ -76,7 +76,7 @@ Proof. exact rotation_lossless. Qed.
     read back from the log files": [readback_disk] reads what is in the files,
     not what is still in the bufio.Writer. *)
 Theorem c16_rotation_lossless_after_flush : forall h m ops,
-  0 <= h -> Forall (good_op 0) ops -> no_gc ops = true ->
+  0 <= h -> run_ok h (init_state [] m) ops -> no_gc ops = true ->
   readback_disk (do_flush (rrun h (init_state [] m) ops)) = logged ops.
 Proof. exact rotation_lossless_after_flush. Qed.
 
@@ -91,11 +91,18 @@ Theorem c16_sync_mode_writes_through : forall h ops s, SyncInv s ->
   SyncInv (rrun h s ops) /\ (syncw (rrun h s ops) = true -> on_disk (rrun h s ops) = dir (rrun h s ops)).
 Proof. exact sync_mode_writes_through. Qed.
 
+(** Closing the file and re-opening it within the same second generates the
+    name it already has: what is in it stays, header and new messages follow. *)
+Theorem c16_reopen_same_name_appends : forall now h f tl s,
+  dir s = f :: tl -> is_open s = false -> last_rot s = 0 -> 0 < now -> f_stamp f = now ->
+  dir (do_rotate now h s) = mkFile now (f_size f + h) (f_msgs f) :: tl.
+Proof. exact reopen_same_name_appends. Qed.
+
 (** With GC runs interleaved and files already present: what is read back is
     what was there plus what was logged, minus a prefix (the oldest files). *)
-Theorem c16_rotation_gc_history : forall pmax h, 0 <= h -> forall ops s,
-  Forall (good_op pmax) ops -> Inv pmax s ->
-  Inv pmax (rrun h s ops) /\
+Theorem c16_rotation_gc_history : forall h, 0 <= h -> forall ops s,
+  run_ok h s ops -> Inv s ->
+  Inv (rrun h s ops) /\
   exists dropped, dropped ++ readback (rrun h s ops) = readback s ++ logged ops /\
                   (no_gc ops = true -> dropped = []).
 Proof. exact rotation_gc_history. Qed.
@@ -119,7 +126,7 @@ Proof. exact gc_keeps_only_within_bound. Qed.
 Theorem c16_gc_incl : forall b l f, In f (gc b l) -> In f l.
 Proof. exact gc_incl. Qed.
 
-Theorem c16_gc_keeps_current : forall pmax b s, Inv pmax s -> is_open s = true ->
+Theorem c16_gc_keeps_current : forall b s, Inv s -> is_open s = true ->
   exists cur rest rest', dir s = cur :: rest /\ dir (do_gc b s) = cur :: rest'.
 Proof. exact gc_keeps_current. Qed.
 
@@ -179,6 +186,14 @@ Example c16_rotation_nonvacuous :
   /\ map (fun f => (f_stamp f, f_size f, f_msgs f)) (dir (rrun 100 (init_state [] 300) (removelast ops)))
     = [(12, 590, [3; 4]); (11, 250, [2]); (10, 190, [1])].
 Proof. vm_compute. split; reflexivity. Qed.
+
+(** close and re-open in the same second (same name), then in a later one *)
+Example c16_reopen_nonvacuous :
+  let ops := [RLog 10 10 1 90; RClose; RLog 10 10 2 90; RClose; RLog 11 11 3 90] in
+  run_ok 100 (init_state [] 1000) ops /\
+  map (fun f => (f_stamp f, f_size f, f_msgs f)) (dir (rrun 100 (init_state [] 1000) ops))
+    = [(11, 190, [3]); (10, 380, [1; 2])].
+Proof. vm_compute. repeat split; try lia; repeat constructor; try lia; try discriminate. Qed.
 
 (** buffered messages are not in the files until a flush; SetSync(true) flushes *)
 Example c16_buffering_nonvacuous :
